@@ -151,3 +151,48 @@ pub proof fn lemma_low_byte(n: nat)
     vstd::arithmetic::div_mod::lemma_mod_mod(n as int, 256, p120);
     assert(forall|lo: u128| #[trigger] (lo as u8) == lo % 256) by (bit_vector);
 }
+
+// ---- whole runs (Executor::run_to_end): partial correctness over the one-step semantics
+/// the machine after n successful steps from m (None: some step failed, ran off the end of the program, or was not covered by sem_step)
+pub open spec fn run_n(instrs: Seq<OpCode>, m: VM, n: nat) -> Option<VM> decreases n {
+    if n == 0 { Some(m) } else {
+        match run_n(instrs, m, (n - 1) as nat) {
+            Some(m1) => if 0 <= m1.pc < instrs.len() && covered(instrs[m1.pc]) { sem_step(instrs[m1.pc], m1) } else { None },
+            None => None,
+        }
+    }
+}
+/// C10: `res` is the outcome of running `instrs` from machine m0: after some number of successful steps the program counter is at
+/// or past the end and res is the value on top of the stack (None on an empty stack), or the next step fails and res is None.
+/// (Instructions outside `covered` -- Exp -- are not constrained.)
+pub open spec fn run_result(instrs: Seq<OpCode>, m0: VM, res: Option<Value>) -> bool {
+    exists|n: nat| match #[trigger] run_n(instrs, m0, n) {
+        Some(m) => (m.pc >= instrs.len() && res == (if m.stack.len() > 0 { Some(m.stack[m.stack.len() - 1]) } else { None::<Value> }))
+                   || (0 <= m.pc < instrs.len() && !covered(instrs[m.pc]))
+                   || (0 <= m.pc < instrs.len() && covered(instrs[m.pc]) && sem_step(instrs[m.pc], m) is None && res is None),
+        None => false,
+    }
+}
+pub open spec fn hits_uncovered(instrs: Seq<OpCode>, m0: VM) -> bool {
+    exists|k: nat| match #[trigger] run_n(instrs, m0, k) { Some(m) => 0 <= m.pc < instrs.len() && !covered(instrs[m.pc]), None => false }
+}
+pub proof fn lemma_uncovered_any(instrs: Seq<OpCode>, m0: VM, res: Option<Value>)
+    requires hits_uncovered(instrs, m0) ensures run_result(instrs, m0, res)
+{
+    let k = choose|k: nat| match #[trigger] run_n(instrs, m0, k) { Some(m) => 0 <= m.pc < instrs.len() && !covered(instrs[m.pc]), None => false };
+    assert(match run_n(instrs, m0, k) { Some(m) => (0 <= m.pc < instrs.len() && !covered(instrs[m.pc])), None => false });
+}
+
+// ---- the covenant environment on the heap (Executor::new_from_env; C04: a covenant is run against its own coin's environment)
+/// heap address -> value: 0 spending transaction, 1 its hash; with an environment: 2/3 the coin's id (creating transaction hash, index), 4 its covenant hash,
+/// 5 value, 6 denomination, 7 additional data, 8 creation height, 9 position among the inputs, 10 previous block's header
+pub open spec fn env_heap(tx: Transaction, env: Option<CovenantEnv>) -> Map<u16, Value> {
+    let base = Map::<u16, Value>::empty().insert(1u16, vbytes(spec_txhash(tx).0.0@)).insert(0u16, val_of_tx(tx));
+    match env {
+        None => base,
+        Some(e) => base.insert(2u16, vbytes(e.parent_coinid.txhash.0.0@)).insert(3u16, vint(e.parent_coinid.index as nat))
+            .insert(4u16, vbytes(e.parent_cdh.coin_data.covhash.0.0@)).insert(5u16, vint(e.parent_cdh.coin_data.value.0 as nat)).insert(6u16, val_of_denom(e.parent_cdh.coin_data.denom))
+            .insert(7u16, vbytes(e.parent_cdh.coin_data.additional_data@)).insert(8u16, vint(e.parent_cdh.height.0 as nat)).insert(10u16, val_of_header(e.last_header))
+            .insert(9u16, vint(e.spender_index as nat)),
+    }
+}
